@@ -462,6 +462,11 @@ def classify_doc(run, doc, dr, feats, active):
     if err == "ConverterError" and "No converter registered for `tuple`" in msg and (
             run["oset"]["options"].get("frozen") or (run["oset"]["options"].get("format") or {}).get("frozen")):
         return ["frozen-tuple-tokens-no-converter"]
+    m_ = re.search(r"XmlElements undefined choice: `([^`]+)` for `<class 'str'>`", msg)
+    if err == "SerializerError" and m_ and run["oset"]["options"].get("compound_fields") and any(
+            v["kind"] == "elements" and v["name"] == m_.group(1) and any(c["any_type"] and not c["wild"] for c in v["choices"])
+            for cv in run["res"]["classes"] for v in cv["elements"]):
+        return ["empty-complex-type-in-compound-field"]
     active = sorted((set(active) - {6}) | ({2} if feats.get("pr_empty_simple") else set()))   # 6: text placement never raises
     return sorted({QUIRK_CLASS[q] for q in active})
 
@@ -608,6 +613,47 @@ OPEN_WITNESSES = [
   </xs:extension></xs:complexContent></xs:complexType></xs:element>
 </xs:schema>
 """}, "docs": ['<r choice="1"><a>1</a><c>true</c><a>2</a></r>']},
+    # an element whose complex type is EMPTY is bound as `object`; as a choice of a compound field its '' value has no choice
+    {"name": "F21-empty-complex-type-in-compound-field", "root": "r", "sources": {"main.xsd": XSH + """>
+  <xs:element name="r"><xs:complexType><xs:choice maxOccurs="unbounded">
+    <xs:element name="a" type="xs:time"/><xs:element name="e"><xs:complexType/></xs:element>
+  </xs:choice></xs:complexType></xs:element>
+</xs:schema>
+"""}, "docs": ["<r><e/><a>12:00:00</a><e/></r>"]},
+    # simple content over a NAMED simple type with an attribute called value: ClassUtils.copy_attributes skips the text attr
+    {"name": "F22-text-field-lost-to-attribute-value", "root": "r", "sources": {"main.xsd": XSH + """>
+  <xs:simpleType name="SB"><xs:restriction base="xs:date"/></xs:simpleType>
+  <xs:element name="r"><xs:complexType><xs:sequence><xs:element name="s" maxOccurs="unbounded"><xs:complexType>
+    <xs:simpleContent><xs:extension base="SB">
+      <xs:attribute name="value" type="xs:string"/><xs:attribute name="k" type="xs:int"/>
+    </xs:extension></xs:simpleContent></xs:complexType></xs:element></xs:sequence></xs:complexType></xs:element>
+</xs:schema>
+"""}, "docs": ['<r><s value="v" k="1">2001-01-01</s><s>1999-12-31</s></r>']},
+    # a local element of anonymous complex type and an attribute of anonymous enumeration type with the SAME name in one
+    # complex type: the inner class K and the inner enumeration share the qname; one of the two fields gets the other's type
+    {"name": "F23-same-named-element-and-attribute-anonymous-types", "root": "doc", "sources": {"main.xsd": XSH + """>
+  <xs:group name="G"><xs:sequence><xs:element name="k"><xs:complexType><xs:attribute name="x" type="xs:int"/></xs:complexType></xs:element></xs:sequence></xs:group>
+  <xs:element name="doc"><xs:complexType><xs:sequence>
+    <xs:element name="r1"><xs:complexType><xs:sequence>
+      <xs:element name="k"><xs:complexType><xs:attribute name="x" type="xs:int"/></xs:complexType></xs:element></xs:sequence>
+      <xs:attribute name="k"><xs:simpleType><xs:restriction base="xs:token"><xs:enumeration value="a"/><xs:enumeration value="b"/></xs:restriction></xs:simpleType></xs:attribute>
+    </xs:complexType></xs:element>
+    <xs:element name="r2" minOccurs="0"><xs:complexType><xs:sequence><xs:group ref="G"/></xs:sequence>
+      <xs:attribute name="k"><xs:simpleType><xs:restriction base="xs:token"><xs:enumeration value="a"/><xs:enumeration value="b"/></xs:restriction></xs:simpleType></xs:attribute>
+    </xs:complexType></xs:element>
+  </xs:sequence></xs:complexType></xs:element>
+</xs:schema>
+"""}, "docs": ['<doc><r1 k="a"><k x="1"/></r1></doc>', '<doc><r1><k/></r1><r2 k="b"><k x="2"/></r2></doc>']},
+    # anonymous types f inside f, each with an attribute n of anonymous enumeration type: both hoisted enumerations get the
+    # qname f_n; the default value of the inner one is looked up in the other enumeration and the attribute falls back to str
+    {"name": "F24-same-qname-enumerations-default-reset", "root": "r", "sources": {"main.xsd": XSH + """>
+  <xs:element name="r"><xs:complexType><xs:sequence>
+    <xs:element name="f"><xs:complexType><xs:sequence>
+      <xs:element name="f" minOccurs="0"><xs:complexType><xs:attribute name="n" default="yes"><xs:simpleType><xs:restriction base="xs:token"><xs:enumeration value="yes"/><xs:enumeration value="no"/></xs:restriction></xs:simpleType></xs:attribute></xs:complexType></xs:element>
+    </xs:sequence><xs:attribute name="n"><xs:simpleType><xs:restriction base="xs:date"><xs:enumeration value="2001-01-01"/><xs:enumeration value="2002-02-02"/></xs:restriction></xs:simpleType></xs:attribute></xs:complexType></xs:element>
+  </xs:sequence></xs:complexType></xs:element>
+</xs:schema>
+"""}, "docs": ['<r><f n="2001-01-01"><f n="no"/></f></r>', '<r><f><f/></f></r>']},
     {"name": "F11-namespaces-style-shadowing", "root": "envelope", "variants": [{"structure_style": "namespaces"}, {"structure_style": "namespaces"}],
      "sources": {"main.xsd": XSH + """ xmlns:a="http://example.com/ns/a">
   <xs:import namespace="http://example.com/ns/a" schemaLocation="part1.xsd"/>
@@ -1083,6 +1129,10 @@ def run(ck: Check):
                     # (if any) is the one of those pairs
                     pc = [classify_pair(rr, *rr["pair_info"][c]) for c, _ in brej[di] if c in rr.get("pair_info", {})]
                     clss = sorted({c for c in pc if c})
+                if not clss and rr["oset"]["options"].get("compound_fields") and any(
+                        rr["res"]["classes"][c].get("shadows_compound") for c, _ in brej[di]):
+                    # e.g. a root with xsi:type naming a derived type whose class shadows the inherited compound field
+                    clss = ["derived-field-shadows-inherited-compound-field"]
                 if not clss and os.environ.get("C02_TRIAGE"):
                     clss = [f"TRIAGE-{dr['stage']}-{dr['err']}-{norm_msg(dr['msg'])}-{'+'.join(k for k, v in ft.items() if v)}-{rr['oset']['name']}"]
                 for cls in clss or [("valid-document-rejected-validator-explains" if expl else "valid-document-rejected")]:
@@ -1104,6 +1154,8 @@ def run(ck: Check):
                                    replay_of(rr, doc=doc, out=dr["ok"], where=where, quirks=qs))
                     continue
                 cls = "imported-no-namespace-schema-gets-importer-namespace" if imports_no_namespace_schema(p) else None
+                if cls is None:
+                    cls = pair_finding_at(rr, where)
                 if cls is None and os.environ.get("C02_TRIAGE"):
                     cls = f"TRIAGE-infoset-{'+'.join(k for k, v in ft.items() if v)}-{rr['oset']['name']}-{len(ck.violations)}"
                 ck.failure(cls or "infoset-mismatch",
@@ -1114,7 +1166,7 @@ def run(ck: Check):
                            "repeated-element-name-order-not-preserved" if di not in bad_nodup else "order-not-preserved",
                            "element order changed although the side condition for order holds",
                            replay_of(rr, doc=doc, out=dr["ok"]))
-            if di in bad_reval and di not in bad_unord:
+            if di in bad_reval and di not in bad_unord and di not in bad_info:      # a changed order is judged above
                 ck.failure("output-not-schema-valid", "serialized output is not schema-valid although order is claimed for all its elements",
                            replay_of(rr, doc=doc, out=dr["ok"]))
 
@@ -1269,6 +1321,12 @@ def classify_pair(rr, tc, info):
     if "content" in (info.get("failed") or []) and rr["res"]["classes"][tc[1]].get("shadows_compound") \
             and rr["oset"]["options"].get("compound_fields"):
         return "derived-field-shadows-inherited-compound-field"
+    if enum_default_reset(rr, tc, info):
+        return "same-qname-hoisted-enumerations-default-reset"
+    if same_named_element_and_attribute(rr, tc, info):
+        return "same-named-element-and-attribute-anonymous-types-confused"
+    if text_field_lost(rr, tc, info):
+        return "simple-content-text-field-lost-to-attribute-named-value"
     if info.get("failed") == ["content"] and t["content"][0] in ("elems", "mixed"):
         names = cm_names(t["content"][1])
         dup = [q for q in set(word) if word.count(q) >= 2 and names.count(q) >= 2]
@@ -1281,6 +1339,91 @@ def classify_pair(rr, tc, info):
     if info.get("failed") == ["content"] and any(q.startswith("\x00") for q in word) \
             and t["content"][0] in ("elems", "mixed") and has_other_wildcard(t["content"][1]):
         return "wildcard-other-resolved-against-parent-namespace"
+    return None
+
+
+def local_of(q):
+    return q.rsplit("}", 1)[-1]
+
+
+def has_enum(st):
+    if not isinstance(st, list):
+        return False
+    if st and st[0] == "atom":
+        return bool(st[2])
+    return any(has_enum(x) for x in st[1:]) or any(has_enum(y) for x in st[1:] if isinstance(x, list) for y in x)
+
+
+def enum_default_reset(rr, tc, info):
+    """an attribute with an anonymous enumeration type AND a default value is bound as plain str, and another complex type of
+    the schema has an enumeration-typed attribute of the same name (hoisted enumerations with the same qname)"""
+    types = rr["p"]["schema"]["types"]
+    t = types[tc[0]]
+    cv = rr["res"]["classes"][tc[1]]
+    failed = set(info.get("failed") or [])
+    if not failed or not failed <= {"attrs", "attr_types"}:
+        return False
+    for a in t["attrs"]:
+        if not (has_enum(a["stype"]) and a.get("value") is not None):
+            continue
+        var = [v for v in cv["attributes"] if v["qname"] == a["qname"]]
+        if not var or [x.get("py") for x in var[0]["types"]] != ["str"]:
+            continue
+        if any(T is not t and local_of(b["qname"]) == local_of(a["qname"]) and has_enum(b["stype"]) and b["stype"] != a["stype"]
+               for T in types for b in T["attrs"]):
+            return True
+    return False
+
+
+def same_named_element_and_attribute(rr, tc, info):
+    """a local element of anonymous complex type and an attribute of (anonymous) enumeration type with the same local
+    name in one complex type: the two inner types share their qname, one field is typed by the other's inner type"""
+    types = rr["p"]["schema"]["types"]
+    t = types[tc[0]]
+    failed = set(info.get("failed") or [])
+    if not failed or not failed <= {"closure", "attrs", "attr_types", "content"}:
+        return False
+    shared = {local_of(d["qname"]) for d in t["decls"] if types[d["type"]]["name"] is None
+              and any(local_of(a["qname"]) == local_of(d["qname"]) and has_enum(a["stype"]) for a in t["attrs"])}
+    if not shared:
+        return False
+    if "closure" in failed and not {local_of(q) for q in info.get("open_decls") or []} <= shared:
+        return False
+    return True
+
+
+def text_field_lost(rr, tc, info):
+    """simple content over a NAMED, non-enumeration simple type + an attribute called `value`: the class has no text field"""
+    t = rr["p"]["schema"]["types"][tc[0]]
+    cv = rr["res"]["classes"][tc[1]]
+    if "text_type" not in (info.get("failed") or []) or t["content"][0] != "simple" or not t.get("simple_base_named"):
+        return False
+    st = t["content"][1]
+    if st[0] == "atom" and st[2]:
+        return False                                     # enumerations keep their text field
+    return any(local_of(a["qname"]) == "value" for a in t["attrs"]) and not any(v["kind"] == "text" for v in cv["elements"] + cv["attributes"]) \
+        and not any(v["kind"] == "text" for v in cv.get("texts", []))
+
+
+PAIR_DOC_CLASSES = ("simple-content-text-field-lost-to-attribute-named-value",
+                    "same-named-element-and-attribute-anonymous-types-confused")
+
+
+def pair_finding_at(rr, where):
+    """the infoset difference lies at / below an element whose type's pair the validator rejected for one of the
+    findings that lose data silently (text field lost, field typed by the wrong inner type)"""
+    segs = re.findall(r"(?:\{[^}]*\})?[^/{}]+", where)           # Clark names contain slashes
+    types = rr["p"]["schema"]["types"]
+    by_type = {}
+    for tc, info in rr.get("pair_info", {}).values():
+        c = classify_pair(rr, tc, info)
+        if c in PAIR_DOC_CLASSES:
+            by_type[tc[0]] = c
+    decls = [d for T in types for d in T["decls"]] + list(rr["p"]["schema"]["elements"].values())
+    for seg in reversed(segs):
+        for d in decls:
+            if d["qname"] == seg and d["type"] in by_type:
+                return by_type[d["type"]]
     return None
 
 
